@@ -6,11 +6,13 @@ fn unnest(path: &expression::Query, ctx: &mut Context) -> Resolved {
 
     match path.target() {
         expression::Target::External(prefix) => {
+            // A target may reject the read (or hold nothing at its root): that is a runtime error
+            // of this fallible function, not a reason to panic.
             let root = ctx
                 .target()
                 .target_get(&OwnedTargetPath::root(*prefix))
-                .expect("must never fail")
-                .expect("always a value");
+                .map_err(|err| format!("unable to read the target: {err}"))?
+                .ok_or("unable to read the target: no value at its root")?;
             unnest_root(root, lookup_buf)
         }
         expression::Target::Internal(v) => {
